@@ -221,10 +221,13 @@ func init() {
 		wg.Wait()
 		if *compile {
 			byName := map[string]GCase{}
+			byDir := map[string]GCase{}
 			for _, c := range cases {
 				byName[c.Name] = c
+				// compiler messages name the package directory, which for corpus cases differs from the case name
+				byDir[strings.Split(c.Setup, "/")[0]] = c
 			}
-			for _, j := range compileJudge(root, byName) {
+			for _, j := range compileJudge(root, byDir) {
 				j.ModelDisagrees = disagreeing[j.Case]
 				j.Replay = saveReplay(*replayDir, "judge-C01-"+j.Case, byName[j.Case], nil, map[string]any{"judgement": j})
 				sum.Judgements = append(sum.Judgements, j)
